@@ -120,12 +120,16 @@ theorem expandFlowFunds_ledger {c : Cfg} {e : Env} {a amount : Nat} {msgs : List
 
 theorem io_feeRefund {c : Cfg} {e : Env} (hs : e.sender ≠ INC) (a paid a' : Nat) :
     outsOf INC a' (feeRefund c e a paid)
-      = (if (c.feeAmt < paid ∧ c.native a = true ∧ a ≠ c.feeAsset) ∧ c.feeAsset = a' then paid - c.feeAmt else 0)
+      = (if (c.feeAmt < paid ∧ ¬ (c.native a = true ∧ a = c.feeAsset)) ∧ c.feeAsset = a' then paid - c.feeAmt else 0)
     ∧ insOf INC a' (feeRefund c e a paid) = 0 := by
   unfold feeRefund
-  by_cases hc : c.feeAmt < paid ∧ c.native a = true ∧ a ≠ c.feeAsset
-  · have hb : (decide (c.feeAmt < paid) && c.native a && decide (a ≠ c.feeAsset)) = true := by
-      simp only [Bool.and_eq_true, decide_eq_true_eq]; exact ⟨⟨hc.1, hc.2.1⟩, hc.2.2⟩
+  by_cases hc : c.feeAmt < paid ∧ ¬ (c.native a = true ∧ a = c.feeAsset)
+  · have hb : (decide (c.feeAmt < paid) && !(c.native a && decide (a = c.feeAsset))) = true := by
+      simp only [Bool.and_eq_true, Bool.not_eq_true', Bool.and_eq_false_iff, decide_eq_true_eq, decide_eq_false_iff_not]
+      refine ⟨hc.1, ?_⟩
+      by_cases hn : c.native a = true
+      · exact Or.inr (fun hh => hc.2 ⟨hn, hh⟩)
+      · exact Or.inl (by simpa using hn)
     rw [if_pos hb]
     obtain ⟨h1, h2⟩ := io_send_inc hs a' c.feeAsset (paid - c.feeAmt)
     rw [h1, h2]
@@ -133,8 +137,14 @@ theorem io_feeRefund {c : Cfg} {e : Env} (hs : e.sender ≠ INC) (a paid a' : Na
     by_cases ha : c.feeAsset = a'
     · rw [if_pos ha, if_pos ⟨hc, ha⟩]
     · rw [if_neg ha, if_neg (fun hh => ha hh.2)]
-  · have hb : ¬ (decide (c.feeAmt < paid) && c.native a && decide (a ≠ c.feeAsset)) = true := by
-      simp only [Bool.and_eq_true, decide_eq_true_eq]; exact fun hh => hc ⟨hh.1.1, hh.1.2, hh.2⟩
+  · have hb : ¬ (decide (c.feeAmt < paid) && !(c.native a && decide (a = c.feeAsset))) = true := by
+      simp only [Bool.and_eq_true, Bool.not_eq_true', Bool.and_eq_false_iff, decide_eq_true_eq, decide_eq_false_iff_not]
+      intro hh
+      apply hc
+      refine ⟨hh.1, fun h2 => ?_⟩
+      rcases hh.2 with h3 | h3
+      · rw [h2.1] at h3; cases h3
+      · exact h3 h2.2
     rw [if_neg hb, if_neg (fun hh => hc hh.1)]
     exact ⟨rfl, rfl⟩
 
@@ -156,8 +166,8 @@ theorem openFlow_ledger_le {c : Cfg} {e : Env} {a amount x y : Nat} {m0 m1 : Lis
       simp only [outsOf, insOf]
       rcases hx with ⟨_, hafa, hx1, hx2⟩ | ⟨hns, hx1⟩
       · -- same denom: paid = flow amount + fee
-        have hno : ¬ ((c.feeAmt < paid ∧ c.native a = true ∧ a ≠ c.feeAsset) ∧ c.feeAsset = a') :=
-          fun hh => hh.1.2.2 hafa
+        have hno : ¬ ((c.feeAmt < paid ∧ ¬ (c.native a = true ∧ a = c.feeAsset)) ∧ c.feeAsset = a') :=
+          fun hh => hh.1.2 ⟨hna, hafa⟩
         rw [if_neg hno]
         by_cases h1 : a = a'
         · rw [if_pos h1, if_pos (by rw [← hafa]; exact h1)]
@@ -175,19 +185,18 @@ theorem openFlow_ledger_le {c : Cfg} {e : Env} {a amount x y : Nat} {m0 m1 : Lis
             rw [← h2]
             split <;> omega
           · rw [if_neg h2, if_neg (fun hh => h2 hh.2)]; omega
-    · -- cw20 flow asset: pulled; the fee denom only carries the fee (an excess stays)
+    · -- cw20 flow asset: pulled; the fee denom carries the fee and the refund of any excess
       have hns : ¬ (c.native a = true ∧ a = c.feeAsset) := fun hh => by rw [hna] at hh; cases hh.1
-      have hno : ¬ ((c.feeAmt < paid ∧ c.native a = true ∧ a ≠ c.feeAsset) ∧ c.feeAsset = a') :=
-        fun hh => by rw [hna] at hh; cases hh.1.2.1
       obtain ⟨p1, p2⟩ := io_pull_inc hs a' a y
-      rw [hm1, p1, p2, if_neg hno]
+      rw [hm1, p1, p2]
       by_cases h1 : a = a'
       · have h2 : ¬ c.feeAsset = a' := fun hh => by rw [← h1] at hh; rw [← hh, hnf] at hna; cases hna
-        rw [if_pos h1, if_neg h2]; omega
+        rw [if_pos h1, if_neg h2, if_neg (fun hh => h2 hh.2)]; omega
       · simp only [if_neg h1]
         by_cases h2 : c.feeAsset = a'
-        · rw [if_pos h2, ← h2]; omega
-        · rw [if_neg h2]; omega
+        · rw [if_pos h2, ← h2]
+          split <;> omega
+        · rw [if_neg h2, if_neg (fun hh => h2 hh.2)]; omega
   · -- cw20 fee: pulled from the sender straight to the collector
     obtain ⟨q1, q2⟩ := io_pull_other hs collector_ne_inc a' c.feeAsset c.feeAmt (src := e.sender)
     rw [hm0, q1, q2]
